@@ -449,9 +449,11 @@ func runProperty(w *World, prop, tier, vdir string, start time.Time, writeBaseli
 		os.WriteFile(filepath.Join(replayDir, "vacuity.json"), []byte(`{"reason":"no obligation was generated for this property"}`), 0o644)
 		exit = 1
 	}
-	os.MkdirAll(filepath.Join(vdir, "evidence"), 0o755)
-	data, _ := json.MarshalIndent(ev, "", " ")
-	os.WriteFile(filepath.Join(vdir, "evidence", prop+".json"), data, 0o644)
+	if !writeBaseline {
+		os.MkdirAll(filepath.Join(vdir, "evidence"), 0o755)
+		data, _ := json.MarshalIndent(ev, "", " ")
+		os.WriteFile(filepath.Join(vdir, "evidence", prop+".json"), data, 0o644)
+	}
 	fmt.Printf("property %s tier %s: %d functions/lemmas, %d obligations, %d discharged, %d violations, %d known, %d undecided (not claimed), %.1fs\n",
 		prop, tier, len(rs), total, discharged, len(violNames), len(knownHits), len(undecided), time.Since(start).Seconds())
 	return exit
